@@ -85,6 +85,103 @@ def opsbits_rule(rep, rule, mod, T):
              % (T['clear_prec'], T['prec']))
 
 
+def opsmono_rule(rep, rule, mod, T):
+    """the directive word only ACCUMULATES within one directive: every value of it that reaches a formatting routine is
+    derived - through `| mask`, the one `& ~precision-bit`, and merges - from the word the flag loop produced.  A path that
+    merges a value NOT derived from the flag accumulator into the word behind the flag loop (`ops = OPS_FLAG_LEFT_ALIGN` for a
+    negative '*' width) drops the flags parsed before it."""
+    f = mod.fn('__printf')
+    ems = emitter_functions(mod)
+    roots = []
+    for c in f.calls():
+        g = ems.get(c.callee)
+        if g is None:
+            continue
+        fp = flag_param(g)
+        if fp is not None and fp < len(c.ops) and c.ops[fp].k == 'inst':
+            roots.append(c.ops[fp])
+    if not roots:
+        raise AnalysisBroken('__printf: no formatting routine receives a directive word (anchor changed)')
+
+    def preds(i):
+        if i.op in ('or', 'and', 'xor'):
+            return [o for o in i.ops if o.k == 'inst']
+        if i.op in ('phi', 'select'):
+            return [o for o in (i.ops[1:] if i.op == 'select' else i.ops) if o.k == 'inst']
+        if i.op in ('zext', 'trunc', 'freeze'):
+            return [i.ops[0]] if i.ops[0].k == 'inst' else []
+        return []
+    web = {}
+    work = [r.id for r in roots]
+    while work:
+        k = work.pop()
+        if k in web:
+            continue
+        i = f.insts[k]
+        if i.op not in ('or', 'and', 'xor', 'phi', 'select', 'zext', 'trunc', 'freeze'):
+            continue
+        web[k] = i
+        work.extend(o.id for o in preds(i))
+    headers = {L['header']: L for L in f.loops}
+    accs = []
+    for i in web.values():
+        if i.op == 'phi' and i.block in headers:
+            L = headers[i.block]
+            for (bb, v) in i.incoming:
+                if f.bmap[bb] in L['blocks'] and v.k == 'inst':
+                    # the value carried round the loop is the accumulator itself with bits added (possibly through merges)
+                    seen, st_, grows = set(), [v.id], False
+                    while st_:
+                        k = st_.pop()
+                        if k in seen or k not in web:
+                            continue
+                        seen.add(k)
+                        x = web[k]
+                        if x.op == 'or' and any(o.k == 'inst' and o.id == i.id for o in x.ops):
+                            grows = True
+                        st_.extend(o.id for o in preds(x))
+                    if grows:
+                        accs.append(i)
+    # the flag accumulator: the innermost such loop phi (the directive loop may carry the word as well)
+    accs = sorted(set(accs), key=lambda i: len(headers[i.block]['blocks']))
+    if not accs:
+        raise AnalysisBroken('__printf: the loop that collects the flag bits into the directive word was not recognised')
+    F = accs[0]
+    memo = {}
+
+    def derives(k, stack=()):
+        # does the value k depend on F (through the web)?
+        if k == F.id:
+            return True
+        if k not in web or k in stack:
+            return False
+        if k in memo:
+            return memo[k]
+        r = any(derives(o.id, stack + (k,)) for o in preds(web[k]))
+        memo[k] = r
+        return r
+    bad = []
+    for i in web.values():
+        if i.id == F.id or i.op not in ('phi', 'select'):
+            continue
+        ins = i.incoming if i.op == 'phi' else [(None, i.ops[1]), (None, i.ops[2])]
+        flags = [(bb, v, v.k == 'inst' and derives(v.id)) for (bb, v) in ins]
+        if any(d for (_, _, d) in flags) and not all(d for (_, _, d) in flags):
+            if i.block in headers and F.block in headers[i.block]['blocks'] and i.block is not F.block:
+                continue        # the directive loop's own carrier: its entry value is the word of the previous directive / 0
+            for (bb, v, d) in flags:
+                if not d:
+                    bad.append((i, bb, v))
+    ok = not bad
+    det = None
+    if bad:
+        i, bb, v = bad[0]
+        det = ('behind the flag loop the directive word is replaced by %s (merged at %s): the flag bits parsed before are '
+               'dropped on that path' % ('the constant %d' % v.ival if v.k == 'ci' else 'a value not derived from it', i.where()))
+    rep.inst(rule, '__printf', 'the directive word only accumulates bits behind the flag loop', ok,
+             bad[0][0].where() if bad else where_fn(f), det, fact={'accumulator': F.name or F.id, 'web': len(web)})
+
+
 def vaarg_rule(rep, rule, mod, T, D, sites):
     f = mod.fn('__printf')
     seen = set()
@@ -996,6 +1093,10 @@ def _run(rep, repo, tier, cse):
     loopvar_rule(rep, 'R-LOOPVAR', mod, ['__printf'] + sorted(n for n in emitter_functions(mod) if n != 'print_f'))
     cursor_rule(rep, 'R-CURSOR', mod)
     opsbits_rule(rep, 'R-OPSBITS', mod, T)
+    try:
+        opsmono_rule(rep, 'R-OPSBITS', mod, T)
+    except AnalysisBroken as e:
+        rep.defer_broken(e)
     vaarg_rule(rep, 'R-VAARG', mod, T, D, vaarg_sites(mod, T))
     percent_rule(rep, 'R-PERCENT', mod, D)
     wide_rule(rep, 'R-WIDE', mod, T, D)
